@@ -135,3 +135,37 @@ extern "C" void harness_face_then_cell() {
   }
   v_witness("C07 face then cell end");
 }
+
+// ---- CELL chunk with SYMBOLIC halfface handle bytes and SYMBOLIC 64-bit handle_offset after one accepted face:
+//      the range check must apply to (stored byte + handle_offset), the value that becomes the handle
+extern "C" void harness_cell_chunk_sym() {
+  bool topo_check = v_param(1) != 0;
+  TopologyKernel m; build_edges(m);
+  m.enable_bottom_up_incidences(false);   // as the reader does before reading chunks
+  VIn in(g_empty, 0, ~0ull);
+  PropertyCodecs codecs; ReadOptions opt;
+  BinaryFileReader r(in.stream(), opt, codecs);
+  OVMVerifAccess::prepare(r, m, topo_check, TopoType::Polyhedral, 4, 6, 1, 1, 4, 6, 0, 0);
+  std::vector<uint8_t> fb; fb.reserve(32);
+  topo_header(fb, 0, 1, 2 /*face*/, 3, 0, 1 /*U8*/, 0);
+  fb.push_back(0); fb.push_back(2); fb.push_back(4);          // triangle (0,1,2): halfedges 0,2,4 of build_edges
+  bool face_ok = run_chunk(r, fb);
+  v_assert(face_ok && m.n_faces() == 1, "C07 harness: the valid face chunk is accepted");
+  if (!face_ok || m.n_faces() != 1) return;
+  uint64_t hoff = v_nondet_u64(); uint8_t c0 = v_nondet_u8(), c1 = v_nondet_u8();
+  std::vector<uint8_t> cb; cb.reserve(32);
+  topo_header(cb, 0, 1, 3 /*cell*/, 2, 0, 1 /*U8*/, hoff);
+  cb.push_back(c0); cb.push_back(c1);
+  bool cell_ok = run_chunk(r, cb);
+  if (!cell_ok) { v_witness("C07 symbolic cell chunk rejected"); return; }
+  v_assert(m.n_cells() == 1, "C07 reader: an accepted one-cell chunk adds exactly one cell");
+  if (m.n_cells() == 1) {
+    const std::vector<HFH> &hfs = m.cell(CH(0)).halffaces();
+    bool inr = hfs.size() == 2;
+    for (unsigned i = 0; i < 2; ++i) if (i < hfs.size() && !(hfs[i].idx() >= 0 && hfs[i].idx() < 2)) inr = false;
+    v_assert(inr, "C07 reader: every halfface handle stored by an accepted cell chunk designates an existing halfface (stored byte + handle_offset < 2 * faces read)");
+    uint64_t e0 = (uint64_t)c0 + hoff, e1 = (uint64_t)c1 + hoff;
+    if (hfs.size() == 2) v_assert((uint64_t)hfs[0].idx() == e0 && (uint64_t)hfs[1].idx() == e1, "C07 reader: stored halfface handle == file value + handle_offset (published format)");
+  }
+  v_witness("C07 symbolic cell chunk accepted");
+}
